@@ -46,13 +46,12 @@ NLinks(fs) == Cardinality({q \in DOMAIN fs : fs[q].k = "link"})
 Filts == <<"none", "dirs", "files", "links">>
 Sorts == <<"none", "name", "dirs_first", "files_first">>
 Maxes == <<0, 1, 2, MAXD>>
-OptsAll == {[filt |-> Filts[f], follow |-> fo, min |-> mi, max |-> Maxes[ma], ord |-> od, cf |-> c, sort |-> Sorts[s], rk |-> Rk] :
-              f \in 1..4, fo \in BOOLEAN, mi \in 0..2, ma \in 1..4, od \in {"min", "max"}, c \in BOOLEAN, s \in 1..4}
+\* combination number i in 0..1535 -> options (decoded arithmetically: thinning picks numbers, not records)
+OptAt(i) == [filt |-> Filts[(i % 4) + 1], sort |-> Sorts[((i \div 4) % 4) + 1], cf |-> ((i \div 16) % 2) = 1, follow |-> ((i \div 32) % 2) = 1,
+             min |-> (i \div 64) % 3, max |-> Maxes[((i \div 192) % 4) + 1], ord |-> IF ((i \div 768) % 2) = 1 THEN "max" ELSE "min", rk |-> Rk]
+NOpts == 1536
 \* the call order only matters when min > max
-Opts == {o \in OptsAll : o.ord = "max" => o.min > o.max}
-OptIx(o) == LET f == CHOOSE i \in 1..4 : Filts[i] = o.filt  s == CHOOSE i \in 1..4 : Sorts[i] = o.sort
-                ma == CHOOSE i \in 1..4 : Maxes[i] = o.max IN
-            (f - 1) + 4 * ((s - 1) + 4 * ((IF o.cf THEN 1 ELSE 0) + 2 * ((IF o.follow THEN 1 ELSE 0) + 2 * (o.min + 3 * ((ma - 1) + 4 * (IF o.ord = "max" THEN 1 ELSE 0))))))
+OptValid(o) == o.ord = "max" => o.min > o.max
 TreeIx(fs) == LET W(q) == IF q \notin DOMAIN fs THEN 0 ELSE CASE fs[q].k = "file" -> 1 [] fs[q].k = "dir" -> 2 [] OTHER -> 3 + Len(fs[q].t)
               IN W(<<"a">>) + 3 * W(<<"b">>) + 5 * W(<<"a", "a">>) + 7 * W(<<"a", "b">>) + 11 * W(<<"b", "a">>) + 13 * W(<<"b", "b">>)
 Stride(fs) == IF NLinks(fs) = 0 THEN OptStride ELSE LinkStride
@@ -64,10 +63,14 @@ Pre == cfg.nv = 0
 Init == /\ \E fs \in Trees : cfg = [fs |-> fs, root |-> <<>>, o |-> NoOpts, nv |-> 0]
         /\ cur = Off /\ stack = <<>> /\ deferred = <<>> /\ out = <<>> /\ done = TRUE /\ steps = 0
 Setup == /\ Pre
-         /\ \E r \in DOMAIN cfg.fs : \E o \in Opts :
-              /\ (OptIx(o) + TreeIx(cfg.fs) + Len(r) + (IF r # <<>> /\ r[1] = "b" THEN 3 ELSE 0)) % Stride(cfg.fs) = 0
-              /\ cfg' = MkCfg(cfg.fs, r, o)
-              /\ cur' = Hand(EntryOf(cfg.fs, r, Norm(o)), 0)
+         /\ LET t == TreeIx(cfg.fs)  st == Stride(cfg.fs) IN
+            \E r \in DOMAIN cfg.fs :
+              LET off == (t + Len(r) + (IF r # <<>> /\ r[1] = "b" THEN 3 ELSE 0)) % st IN
+              \E m \in 0..((NOpts - 1 - off) \div st) :
+                LET o == OptAt(st * m + off) IN
+                /\ OptValid(o)
+                /\ cfg' = MkCfg(cfg.fs, r, o)
+                /\ cur' = Hand(EntryOf(cfg.fs, r, Norm(o)), 0)
          /\ done' = FALSE /\ UNCHANGED <<stack, deferred, out, steps>>
 Next == \/ Setup \/ LoopError \/ Yield \/ SkipDepth \/ SkipFilter \/ Defer \/ Enter \/ PickAny \/ PickSorted
         \/ EmitDeferred \/ Leave \/ Finish \/ Idle
